@@ -36,15 +36,20 @@ inductive Entry where
 /-- Python `dict`: insertion ordered; re-assignment keeps the position -/
 abbrev Ctx := List (String × Entry)
 
-def lookup (c : Ctx) (k : String) : Option Entry := (c.find? (·.1 == k)).map (·.2)
+/-- `d.get(k)` -/
+def dget {β : Type} : List (String × β) → String → Option β
+  | [], _ => none
+  | (k, v) :: r, x => if k == x then some v else dget r x
 
-def set (c : Ctx) (k : String) (v : Entry) : Ctx :=
-  if c.any (·.1 == k) then c.map (fun kv => if kv.1 == k then (k, v) else kv) else c ++ [(k, v)]
+/-- `d[k] = v` (keys are unique: the first occurrence is the only one) -/
+def dset {β : Type} : List (String × β) → String → β → List (String × β)
+  | [], k, v => [(k, v)]
+  | (k', v') :: r, k, v => if k' == k then (k, v) :: r else (k', v') :: dset r k v
 
-def setProp (ps : List (String × Int)) (k : String) (v : Int) : List (String × Int) :=
-  if ps.any (·.1 == k) then ps.map (fun kv => if kv.1 == k then (k, v) else kv) else ps ++ [(k, v)]
-
-def getProp (ps : List (String × Int)) (k : String) : Option Int := (ps.find? (·.1 == k)).map (·.2)
+def lookup (c : Ctx) (k : String) : Option Entry := dget c k
+def set (c : Ctx) (k : String) (v : Entry) : Ctx := dset c k v
+def setProp (ps : List (String × Int)) (k : String) (v : Int) : List (String × Int) := dset ps k v
+def getProp (ps : List (String × Int)) (k : String) : Option Int := dget ps k
 
 /-- `evaluate_expression` on the expression forms the harness writes -/
 def eval (c : Ctx) : Ex → Option Int
@@ -58,17 +63,19 @@ def eval (c : Ctx) : Ex → Option Int
   | .add a b => do let x ← eval c a; let y ← eval c b; pure (x + y)
   | .mul a b => do let x ← eval c a; let y ← eval c b; pure (x * y)
 
+/-- `f` holds for some suffix of `s` -/
+def anySuffix (f : List Char → Bool) : List Char → Bool
+  | [] => f []
+  | c :: t => f (c :: t) || anySuffix f t
+
 /-- `re.fullmatch(pattern.replace("*", ".*").replace("%", "."), key)` for names without regex metacharacters -/
 def glob : List Char → List Char → Bool
-  | [], [] => true
-  | [], _ :: _ => false
-  | '*' :: p, [] => glob p []
-  | '*' :: p, c :: s => glob p (c :: s) || glob ('*' :: p) s
-  | '%' :: p, _ :: s => glob p s
-  | '%' :: _, [] => false
-  | a :: p, c :: s => a == c && glob p s
-  | _ :: _, [] => false
-termination_by p s => p.length + s.length
+  | [], s => s.isEmpty
+  | a :: p, s =>
+    if a == '*' then anySuffix (glob p) s
+    else match s with
+      | [] => false
+      | c :: t => (a == '%' || a == c) && glob p t
 
 /-- `resolve_object_name_wildcard("type::pattern", context)`: names that match and are elements of that type, in
 dictionary order -/
